@@ -607,7 +607,9 @@ class Spectrum:
         indices = np.intersect1d(np.where(self.wave >= start),
                                  np.where(self.wave <= end))
         wave = self.wave[indices]
-        value = self.value[indices]
+        # integrate in floating point whatever the dtype of the samples
+        # (the sums wrap around for narrow integers and are logical ORs for booleans)
+        value = np.asarray(self.value[indices], dtype=float)
 
         if method == 'simps':
             result = scipy.integrate.simpson(x=wave, y=value)
